@@ -124,9 +124,13 @@ def run_builder_check(pid, gen_cases, oracle_fn, fields=None, truncate_at_leak=T
     """
     run = Run(pid)
     st = standard_proof_phase(run, pid)
+    replay_oracle_only = None
     if run.replay:
         doc = json.load(open(run.replay))
         cases = [(doc["dp"], [cmd_unjson(c) for c in doc["history"]])]
+        if any(c[0] in ("trace", "set_resolution", "set_direction") for c in cases[0][1]):
+            # a history with real tracer calls: these are outside the model, the oracle alone judges them
+            replay_oracle_only, cases = cases, []
     else:
         cases = list(corpus) + gen_cases(run)
     run.log("running %d histories on the implementation" % len(cases))
@@ -203,8 +207,8 @@ def run_builder_check(pid, gen_cases, oracle_fn, fields=None, truncate_at_leak=T
                             emitted=[s["raw"] for s in steps[:8]], exceptions=[s["exc"] for s in steps[:8]]))
     # histories with commands outside the model (real tracer shapes): oracle only ----------
     n_oracle_only = 0
-    if oracle_only_cases is not None and not run.replay:
-        for ci, (dp, cmds) in enumerate(oracle_only_cases(run)):
+    if (oracle_only_cases is not None and not run.replay) or replay_oracle_only:
+        for ci, (dp, cmds) in enumerate(replay_oracle_only or oracle_only_cases(run)):
             steps = ImplRun(dp, style=0).run(cmds)
             upto = annotate_leaks(cmds, steps) if truncate_at_leak else None
             n_oracle_only += 1
